@@ -139,8 +139,10 @@ class ResourceScenario(ScenarioData):
         if leaves:
             for leave in leaves:
                 if hasattr(leave, "interval"):
-                    start_idx = self.project.dateToIdx(leave.interval.start)
-                    end_idx = self.project.dateToIdx(leave.interval.end)
+                    # Clamp to the table: a leave may begin before the project starts (a negative
+                    # index would wrap around to the end of the table) or end after it.
+                    start_idx = max(0, self.project.dateToIdx(leave.interval.start))
+                    end_idx = max(0, self.project.dateToIdx(leave.interval.end))
                     for i in range(start_idx, min(end_idx, size)):
                         sb = self.scoreboard[i]
                         val = 0 if sb is None else (sb & 2)
@@ -152,8 +154,8 @@ class ResourceScenario(ScenarioData):
         if res_leaves:
             for leave in res_leaves:
                 if hasattr(leave, "interval"):
-                    start_idx = self.project.dateToIdx(leave.interval.start)
-                    end_idx = self.project.dateToIdx(leave.interval.end)
+                    start_idx = max(0, self.project.dateToIdx(leave.interval.start))
+                    end_idx = max(0, self.project.dateToIdx(leave.interval.end))
                     for i in range(start_idx, min(end_idx, size)):
                         sb = self.scoreboard[i]
                         if sb is not None:
